@@ -8,11 +8,13 @@ def run(ctx):
     res = ctx.cvc(fams, ["F-CONV"])
     from lib import replay
     replay.replay_fconv(ctx, res)
+    g.run_fsearch(ctx)
     ctx.standin("hist_rt", families=("OO", "II", "LF", "fs") if ctx.tier == "quick" else
                 ("OO", "II", "LF", "QQ", "fs", "IO", "UU", "LL", "OI", "IF"), args=["--mode", "twin"])
     return "other", (
         "Both implementations are proved against one contract where both proofs exist: the Python leaf layer "
         "(%d functions, Engine P: lookups with unusable keys report absence, writes convert first and raise "
         "TypeError with the container unchanged) and the C integer conversions (F-CONV: same accept set = "
-        "representable ints, TypeError on reject). Agreement of results, exception classes, contents, shape and "
+        "representable ints, TypeError on reject) and binary searches (F-SEARCH: the C search macros satisfy the same "
+        "found / insertion-point / child-selection contract as _BucketBase._search / _Tree._search). Agreement of results, exception classes, contents, shape and "
         "serialized state over call histories is the bounded relational stand-in hist_rt (twin mode)." % len(fns))
